@@ -33,6 +33,11 @@ theorem c20_file_order {C : Type} (before : List (List C)) (file : List C) (afte
 theorem c20_append_precondition (k t : Bool) : accepts k t = false ↔ (k = false ∧ t = false) := by
   cases k <;> cases t <;> simp [accepts]
 
+/-- a refused curve is not in the group afterwards; an accepted one is its last element -/
+theorem c20_refused_leaves_group {C : Type} (g : List C) (c : C) (k t : Bool) :
+    (accepts k t = false → groupAfter g c k t = g) ∧ (accepts k t = true → groupAfter g c k t = g ++ [c]) := by
+  constructor <;> intro h <;> simp [groupAfter, appendCurve, h]
+
 /-! ## progress -/
 theorem progressFrom_bounds (M ii : Nat) (fs : List (List K)) (hM : ii + fs.length ≤ M) (hM0 : 0 < M)
     (h01 : ∀ f ∈ fs, ∀ x ∈ f, 0 ≤ x ∧ x ≤ 1) :
